@@ -111,6 +111,8 @@ var faultCatalogue = []faultSpec{
 	{Name: "store-bool-into-int-element", Cite: "must", OwnRecover: true, Stmt: func() *dsl.Stmt { return dsl.Assign(dsl.Index("sl", i(0)), "=", dsl.Bool(true)) }},
 	{Name: "store-string-into-int-map-value", Cite: "must", OwnRecover: true, Stmt: func() *dsl.Stmt { return dsl.Assign(dsl.Index("m", dsl.Str("k1")), "=", dsl.Str("v")) }},
 	{Name: "store-with-int-key-on-string-map", Cite: "must", OwnRecover: true, Stmt: func() *dsl.Stmt { return dsl.Assign(dsl.Index("m", i(3)), "=", i(1)) }},
+	{Name: "store-three-level-field-of-missing-object", Cite: "must", OwnRecover: true, Stmt: func() *dsl.Stmt { return dsl.Assign(dsl.Var("nobj.In.V"), "=", i(1)) }},
+	{Name: "store-three-level-field-through-nil", Cite: "must", OwnRecover: true, Stmt: func() *dsl.Stmt { return dsl.Assign(dsl.Var("O.NilIn.V"), "=", i(1)) }},
 	{Name: "store-field-of-missing-object", Cite: "must", OwnRecover: true, Stmt: func() *dsl.Stmt { return dsl.Assign(dsl.Var("nobj.F"), "=", i(1)) }},
 	{Name: "store-missing-field", Cite: "must", OwnRecover: true, Stmt: func() *dsl.Stmt { return dsl.Assign(dsl.Var("W.Nope"), "=", i(1)) }},
 	{Name: "store-field-through-nil-pointer", Cite: "must", OwnRecover: true, Stmt: func() *dsl.Stmt { return dsl.Assign(dsl.Var("nilp.N"), "=", i(1)) }},
